@@ -252,6 +252,20 @@ func init() {
 		}
 		return TFalse
 	})
+	reg(vrtPath+".All", func(m *Machine, fr *frame, args []Value) Value {
+		r := TTrue
+		for _, c := range args[0].([]Value) {
+			r = And(r, c.(*Term))
+		}
+		return r
+	})
+	reg(vrtPath+".Any", func(m *Machine, fr *frame, args []Value) Value {
+		r := TFalse
+		for _, c := range args[0].([]Value) {
+			r = Or(r, c.(*Term))
+		}
+		return r
+	})
 	reg(vrtPath+".Outcome", func(m *Machine, fr *frame, args []Value) Value { return nil })
 	// Crashes(f): runs f in a fresh goroutine context; the engine reports crash if it panics unrecovered.
 }
